@@ -363,6 +363,15 @@ func TestVerifSender(t *testing.T) {
 			}
 		}
 	})
+	// every reply kind repeated for ever under a budget that is spent after a few back-offs, long before the replicas'
+	// attempt limits are reached (never sampled)
+	for _, k := range sKinds[1:] {
+		for _, cfg := range cfgs {
+			small := cfg
+			small.Budget = 60
+			sRunOne(log, small, []string{k}, "repeat", 300)
+		}
+	}
 	// read-ts validation: nothing may be sent when it fails
 	for _, cfg := range cfgs {
 		c := cfg
